@@ -143,6 +143,7 @@ class Agent:
         self.time_override = None
         self.boots_override = None
         self.v3_response_hook = None
+        self.honour_reportable = False     # TRUE: requests without the reportable flag that would earn a Report are dropped (raise Dropped)
         self.force_report = None           # name of a usmStats counter: the next non-discovery request is answered with that Report
         self.report_ctx_engine = None      # contextEngineID of Reports (default: the engine id; proxies / multi-context agents differ, it may be empty)
 
@@ -366,6 +367,10 @@ class Agent:
         return build_v3(msgid, 65507, flags, engine, boots, time, uname, b"", salt, payload, self.forms)
 
     def report(self, req, counter, u, msgid, reqid) -> bytes:
+        if self.honour_reportable and not (req.get("flags", 4) & 4):
+            # RFC 3412 7.1 step 3 / RFC 3414 3.2: no Report is generated for a message whose reportableFlag is clear - it is dropped
+            req["dropped"] = True
+            raise Dropped(counter)
         vbs = [(USM_STATS[counter], enc_uint(self.stats[counter], 0x41))]
         pdu = build_pdu(REPORT, reqid, 0, 0, vbs)
         scoped = build_scoped(self.engine if self.report_ctx_engine is None else self.report_ctx_engine, b"", pdu)
@@ -379,3 +384,7 @@ class Agent:
 
 class BudgetExceeded(Exception):
     pass
+
+
+class Dropped(Exception):
+    """the agent discards the datagram without an answer (the sender seam turns this into puresnmp's Timeout)"""
